@@ -27,6 +27,7 @@ func checkC10(c *chk.Ctx) {
 		"R10c recovery leaves the scan silently on a damaged entry only when that entry's offset is above the commit offset",
 		"R10d a header / index checksum is only read when the buffer is known to hold it",
 		"R10f the controllers initialise what their CommitOffset() reads before they open (recover) the WAL",
+		"R10g truncation clears the whole discarded tail, so that recovery (which scans up to the first empty header) cannot resurrect discarded entries",
 	}
 	c.NotDec = []string{
 		"bit-identical round trip; which subset of unsynced pages persisted",
@@ -38,6 +39,7 @@ func checkC10(c *chk.Ctx) {
 	ruleR10c(h)
 	ruleR10d(h)
 	ruleR10f(h)
+	ruleTruncateClearsTail(h, "R10g")
 }
 
 func codecImplMethods(h *H, rule, method string) []*ssa.Function {
